@@ -178,7 +178,7 @@ INFO = dict(
                "shapes outside the catalogue, hash seeds beyond the sampled ones, IEEE rounding.",
     design_ref="DESIGN.md section 3 C02",
     explanation="Symbolic execution of the real parsers over symbolic rule weights; z3 proves result == sum over derivation trees for all weights on each path.",
-    bounds=dict(quick=dict(strings="<= 3 over {a,b} (15 per skeleton)", skeletons=["G-NU", "G-CAT", "G-UC", "G-DUP", "G-WIDE"], hash_seeds=2, tie_breaks="all on G-WIDE (len<=2)", permutations="reverse, rotate-1", materialize_n=[0, 2]),
+    bounds=dict(quick=dict(strings="<= 3 over {a,b} (15 per skeleton)", skeletons="see coverage.inputs_run (measured)", hash_seeds=2, tie_breaks="all on G-WIDE (len<=2)", permutations="reverse, rotate-1", materialize_n=[0, 2]),
                 thorough=dict(strings="<= 4", skeletons=11, hash_seeds=8, tie_breaks="all on G-WIDE,G-UC,G-LR (len<=3)", permutations="all rotations + reverse", materialize_n=[0, 1, 2, 3])),
     stubs=["NondetHeap replaces arsenal LocatorMaxHeap only in the tie-break jobs (contract: pop returns some key of maximal priority)"],
     outside=["non-linear nullable recursion (oracle raises out-of-bounds)", "PYTHONHASHSEED is a sampled dimension", "IEEE rounding of Float weights"],
